@@ -870,4 +870,6 @@ def run(U, rep, tier):
   # R6.6: limits whose range does not contain 0 are inert for a system at rest inside them -- the quantity a limit must
   # NOT act on (a slide's rotation angle, a hinge's offset) is 0, outside such a range (shared with C04 R4.5)
   from braxlint.props import c04
-  c04.rest(U, rep, tier, rule='R6.6', backends=('spring', 'positional'))
+  # without the hinge-then-slide model of R4.5: it moves on the pinned tree for a reason that is not a limit (known
+  # finding D11 of C04: the slide axis convention of the maximal-coordinate layer), so it says nothing about limits
+  c04.rest(U, rep, tier, rule='R6.6', backends=('spring', 'positional'), models=c04.REST_MODELS[:3])
